@@ -392,7 +392,23 @@ class CallMixin:
             return []
         if c.inline:
             return self.inline_call(qual, fd, bound, p, R, node)
-        return self.apply_contract(c, qual, bound, p, R, node)
+        # parameters on which the contract forks statically (true/false): split a symbolic bool
+        worlds = [(p, bound)]
+        for name, alts in c.params.items():
+            if set(alts) <= {"true", "false"} and name in bound and bound[name].tag == "bool" and not (z3.is_true(bound[name].z) or z3.is_false(bound[name].z)):
+                nw = []
+                for q, b in worlds:
+                    for val in (True, False):
+                        q2 = q.fork()
+                        q2.assume(b[name].z == val)
+                        b2 = dict(b)
+                        b2[name] = BoolV(val)
+                        nw.append((q2, b2))
+                worlds = nw
+        outs = []
+        for q, b in worlds:
+            outs += self.apply_contract(c, qual, b, q, R, node)
+        return outs
 
     def apply_contract(self, c: Contract, qual, bound: dict, p: Path, R, node):
         line = node.lineno
@@ -436,6 +452,8 @@ class CallMixin:
                 q.assume(Not(r.when(x0)))
         for en in c.ensures_:
             q.assume(en.fn(x))
+        if isinstance(res.extra, dict) and "emb" in res.extra and res.tag == "lref":
+            q.ghost.setdefault("filters", []).append((res.z, None, res.extra["emb"], res.extra["inv"]))
         q.labels[f"after:{short}:{line}"] = h1
         q.ghost.setdefault("calls", []).append((short, line, h0, h1, a, res))
         outs.append((q, res))
@@ -452,6 +470,10 @@ class CallMixin:
             if t == "tree" and v.tag == "ref" and v.cls == "Tree":
                 return True
             if t == v.tag:
+                return True
+            if t == "true" and v.tag == "bool" and z3.is_true(v.z):
+                return True
+            if t == "false" and v.tag == "bool" and z3.is_false(v.z):
                 return True
             if t == "kind" and v.tag in ("val", "str"):
                 return True
